@@ -69,7 +69,10 @@ def build_harness():
     return time.time() - t0
 
 
-def run_harness(args, timeout=3600, stdout_path=None):
+LAST_HARNESS_RC = [0]
+
+
+def run_harness(args, timeout=3600, stdout_path=None, ok_codes=(0,)):
     t0 = time.time()
     out = open(stdout_path, "w") if stdout_path else subprocess.PIPE
     try:
@@ -79,7 +82,8 @@ def run_harness(args, timeout=3600, stdout_path=None):
     finally:
         if stdout_path:
             out.close()
-    if r.returncode not in (0,):
+    LAST_HARNESS_RC[0] = r.returncode
+    if r.returncode not in ok_codes:
         raise ToolError("harness exited with %d: %s" % (r.returncode, " ".join(args[:4])))
     return (r.stdout if not stdout_path else ""), time.time() - t0
 
